@@ -15,7 +15,7 @@ from props import conn_judge as J
 
 
 def design(ctx):
-    ok = "SPECIFICATION Spec\nCONSTANTS\n M = 5\n Interval = 1\n TicksPerSecond = 3\n MaxTime = %d\nPROPERTY NoReuse\nINVARIANT NeverZero\nCHECK_DEADLOCK FALSE\n" % (12 if ctx.quick else 16)
+    ok = "SPECIFICATION Spec\nCONSTANTS\n M = 5\n Interval = 1\n TicksPerSecond = 3\n MaxTime = %d\nPROPERTY NoReuse\nINVARIANT NeverZero\nCHECK_DEADLOCK FALSE\n" % (12 if ctx.quick else 14)
     r = ctx.mc("Nonce", ok, label="Nonce M=5 interval=1 second=3 ticks (a wrap takes longer than a second)", need=["Advance", "Emit"])
     if not r.ok:
         ctx.fail("Nonce model: %s violated" % r.violation["name"], dict(trace=r.trace[-8:]))
